@@ -41,7 +41,7 @@ def build_api(case):
 
 def resolve(pkg, name):
     """operation_info type names are resolved relative to the method's package."""
-    if name.startswith("google.protobuf."):
+    if name.startswith(("google.protobuf.", "google.rpc.", "google.type.")):
         return name
     return name if name.startswith(pkg + ".") else pkg + "." + name
 
@@ -147,7 +147,7 @@ def run_case(case):
             if sample is None and call["k"] >= 2 and call["outcome"] == "response":
                 sample = {"rpc": call["rpc"], "client": call["client"], "where": w, "history": f"not-done^{call['k']} done(response)",
                           "poll_paths": [e["method"] for e in r["poll_events"]][:5], "result_type": r.get("result_type")}
-    return {"verdict": "violated" if viol else "held", "violations": viol[:20], "evaluations": len(calls),
+    return {"verdict": "violated" if viol else "held", "violations": pipeline.diverse(viol, 40), "evaluations": len(calls),
             "nontrivial_sigs": sorted(sigs), "counters": counters, "sample": sample or {}}
 
 
